@@ -230,6 +230,9 @@ def c08 (op : String) (args : List String) (impl : String) : Verdict :=
           -- the clock origin reported by the harness: the instant the Dialer's Control hook returned (the socket exists,
           -- nothing is written yet), whole ms since the call began - not after the model's t0, so
           -- `observation_within_model_bounds` applies to the instants counted from there
+          -- whole ms between the peer sending the reply that came back and the return of the call (echoed; `na` if none)
+          let lagTok := tok impl "lag"
+          let lagOk := lagTok == "na" || (match lagTok.toNat? with | some n => decide (n < 250) | none => false)
           let t0Tok := tok impl "t0"
           -- (a missing or malformed token must not loosen the bounds: it fails `timed_observation_wellformed`)
           let t0 := t0Tok.toNat?.getD 0
@@ -237,7 +240,7 @@ def c08 (op : String) (args : List String) (impl : String) : Verdict :=
           let model := s!"class={cls} pkt={pkt} first={first} verbatim={verbatim} resends={resends} " ++
             s!"prompt={if isCtx then "true" else "na"} silent={if blind then "na" else boolStr true} " ++
             s!"goroutines={boolStr s.connClosed} fds={boolStr s.connClosed} " ++
-            s!"t0={t0Tok} arr={arrTok} end={endTok} d={retry}"
+            s!"t0={t0Tok} arr={arrTok} end={endTok} d={retry} lag={lagTok}"
           let d := Timed.period P
           let arrP := parseArr arrTok
           let endP := parseEnd endTok
@@ -271,6 +274,8 @@ def c08 (op : String) (args : List String) (impl : String) : Verdict :=
              -- retransmissions that fail do not keep the call from returning the context's error
              ("failed_resends_do_not_outlive_cancel", !(vanish && isCtx) || icls == ctxName),
              ("returns_promptly_after_cancel", okTok "prompt"),
+             -- "with the reply as soon as an acceptable one arrives": within 250 ms of the peer sending it
+             ("returns_with_the_reply_as_soon_as_it_arrives", lagOk),
              ("resend_is_byte_identical", okTok "verbatim"),
              ("no_resend_when_retry_not_positive", decide (retry > 0) || tok impl "resends" == "ok" || tok impl "resends" == "na"),
              ("resend_count_matches_interval", decide (retry ≤ 0) || tok impl "resends" == "ok" || tok impl "resends" == "na"),
